@@ -255,9 +255,14 @@ def decorate(rng, prog):
     if len(ifaces) >= 2 and rng.random() < 0.35:
         # two interfaces whose module paths end in the same identifier (`a_ns::common`, `b_ns::common`), told apart with `as`
         same_trait = rng.random() < 0.5
-        for part in ifaces[:2]:
+        # both renamed, or only one of them (the other keeps the default variant name `Common`), in either position
+        keep_default = rng.choice([None, None, 0, 1])
+        for j, part in enumerate(ifaces[:2]):
             part["module"] = part["module"] + "_ns::common"
-            part["as_name"] = part["variant"]
+            if j == keep_default:
+                part["variant"] = "Common"
+            else:
+                part["as_name"] = part["variant"]
             if same_trait:
                 part["trait"] = "Common"   # v1::common::Common and v2::common::Common: also the generated message types share their names
     if rng.random() < 0.4:
@@ -268,6 +273,21 @@ def decorate(rng, prog):
                                      f"fn helper_{i}(&self) -> u32 {{ {i} }}", f"pub fn assoc_{i}() -> u8 {{ {i} }}"]))
         # (slot, item): slot counts handler methods of the contract impl in declaration order
         prog["impl_between"] = [(rng.randrange(0, 12), it) for it in items]
+
+
+def add_shared_alias(rng, prog):
+    """Two parts accept the same extra name (a forwarded `serde(alias)`) for one of their messages of one kind.  The name
+    is in nobody's `*_messages()` table; a document under it is accepted by two parts."""
+    for kind in rng.sample(KINDS_ENUM, len(KINDS_ENUM)):
+        owners = [part for part in prog["parts"] if any(h["kind"] == kind for h in part["handlers"])]
+        if len(owners) >= 2:
+            name = f"shared_{kind}_zz"
+            for part in rng.sample(owners, 2):
+                h = rng.choice([h for h in part["handlers"] if h["kind"] == kind])
+                h["sv_attrs"] = list(h.get("sv_attrs", [])) + [f"serde(alias = \"{name}\")"]
+                h["shared_alias"] = name
+            return name
+    return None
 
 
 def set_custom_mode(prog, part, mode):
@@ -586,6 +606,10 @@ def gen_generic_program(rng, name, n_generics=None, n_ifaces=None, iface_assoc=T
     names = rng.sample(GENERIC_NAMES, ng)
     concs = rng.sample(GENERIC_CONCRETE, ng)
     p["generics"] = [{"name": n, "concrete": c.concrete} for n, c in zip(names, concs)]
+    for g in p["generics"]:
+        if rng.random() < 0.3:
+            # the same bound written out, with its higher-ranked lifetime: `T: Serialize + for<'de> Deserialize<'de> + ..`
+            g["hrtb"] = True
     if rng.random() < 0.3:
         p["lifetime"] = "'a"
     gp = {n: T.generic_param(n, c) for n, c in zip(names, concs)}
